@@ -1,1 +1,169 @@
+//! G-PROGRAM — per-language tables (comment styles, valid code-line templates) and source-file
+//! generators. `source_file()` is the loose generator used by the crash/token sweeps;
+//! the ground-truth generator for C04 lives in `props::c04`.
 
+use proptest::prelude::*;
+
+use super::{sel_str, text};
+
+#[derive(Debug, Clone, Copy)]
+pub struct LangSpec {
+    pub id: &'static str,
+    /// line-comment leaders
+    pub line: &'static [&'static str],
+    /// block comments (open, close)
+    pub block: &'static [(&'static str, &'static str)],
+    /// text that must open the file (php)
+    pub prologue: &'static str,
+    /// syntactically valid code lines; `{id}` = identifier hole, `{s}` = string content hole
+    pub code: &'static [&'static str],
+}
+
+pub const LANGS: &[LangSpec] = &[
+    LangSpec { id: "rust", line: &["//", "///", "//!"], block: &[("/*", "*/"), ("/**", "*/")], prologue: "",
+        code: &["let {id} = \"{s}\";", "fn {id}() {}", "const {id}: &str = \"{s}\";", "struct {id};"] },
+    LangSpec { id: "typescript", line: &["//"], block: &[("/*", "*/"), ("/**", "*/")], prologue: "",
+        code: &["const {id}: string = \"{s}\";", "function {id}() {}", "let {id} = '{s}';"] },
+    LangSpec { id: "typescriptreact", line: &["//"], block: &[("/*", "*/"), ("/**", "*/")], prologue: "",
+        code: &["const {id} = \"{s}\";", "function {id}() {}"] },
+    LangSpec { id: "javascript", line: &["//"], block: &[("/*", "*/"), ("/**", "*/")], prologue: "",
+        code: &["const {id} = \"{s}\";", "function {id}() {}", "var {id} = '{s}';"] },
+    LangSpec { id: "javascriptreact", line: &["//"], block: &[("/*", "*/"), ("/**", "*/")], prologue: "",
+        code: &["const {id} = \"{s}\";", "function {id}() {}"] },
+    LangSpec { id: "python", line: &["#"], block: &[], prologue: "",
+        code: &["{id} = \"{s}\"", "def {id}(): pass", "{id} = '{s}'", "import {id}"] },
+    LangSpec { id: "nix", line: &["#"], block: &[("/*", "*/")], prologue: "",
+        code: &["let {id} = \"{s}\"; in {id}"] },
+    LangSpec { id: "go", line: &["//"], block: &[("/*", "*/")], prologue: "package main\n",
+        code: &["var {id} = \"{s}\"", "func {id}() {}", "const {id} = `{s}`"] },
+    LangSpec { id: "c", line: &["//"], block: &[("/*", "*/")], prologue: "",
+        code: &["const char *{id} = \"{s}\";", "int {id}(void) { return 0; }", "int {id};"] },
+    LangSpec { id: "cpp", line: &["//"], block: &[("/*", "*/")], prologue: "",
+        code: &["const char *{id} = \"{s}\";", "int {id}() { return 0; }", "class {id} {};"] },
+    LangSpec { id: "cmake", line: &["#"], block: &[], prologue: "",
+        code: &["set({id} \"{s}\")", "project({id})"] },
+    LangSpec { id: "ruby", line: &["#"], block: &[], prologue: "",
+        code: &["{id} = \"{s}\"", "def {id}; end", "{id} = '{s}'"] },
+    LangSpec { id: "swift", line: &["//", "///"], block: &[("/*", "*/")], prologue: "",
+        code: &["let {id} = \"{s}\"", "func {id}() {}"] },
+    LangSpec { id: "csharp", line: &["//", "///"], block: &[("/*", "*/")], prologue: "",
+        code: &["class {id} { string x = \"{s}\"; }", "class {id} {}"] },
+    LangSpec { id: "toml", line: &["#"], block: &[], prologue: "",
+        code: &["{id} = \"{s}\"", "[{id}]", "{id} = '{s}'"] },
+    LangSpec { id: "lua", line: &["--"], block: &[("--[[", "]]")], prologue: "",
+        code: &["local {id} = \"{s}\"", "function {id}() end", "local {id} = '{s}'"] },
+    LangSpec { id: "shellscript", line: &["#"], block: &[], prologue: "",
+        code: &["{id}=\"{s}\"", "echo \"{s}\"", "{id}() { :; }", "echo '{s}'"] },
+    LangSpec { id: "java", line: &["//"], block: &[("/*", "*/"), ("/**", "*/")], prologue: "",
+        code: &["class {id} { String x = \"{s}\"; }", "class {id} {}"] },
+    LangSpec { id: "haskell", line: &["--"], block: &[("{-", "-}")], prologue: "",
+        code: &["{id} = \"{s}\"", "{id} = 1"] },
+    LangSpec { id: "php", line: &["//", "#"], block: &[("/*", "*/"), ("/**", "*/")], prologue: "<?php\n",
+        code: &["${id} = \"{s}\";", "function {id}() {}", "${id} = '{s}';"] },
+    LangSpec { id: "dart", line: &["//", "///"], block: &[("/*", "*/")], prologue: "",
+        code: &["var {id} = \"{s}\";", "void {id}() {}", "var {id} = '{s}';"] },
+    LangSpec { id: "scala", line: &["//"], block: &[("/*", "*/"), ("/**", "*/")], prologue: "",
+        code: &["val {id} = \"{s}\"", "def {id}() = 1", "object {id}"] },
+];
+
+pub fn lang_spec(id: &str) -> Option<&'static LangSpec> {
+    LANGS.iter().find(|l| l.id == id)
+}
+
+const IDENTS: &[&str] = &["foo", "bar_baz", "getUserName", "x1", "zqIdent", "HTTPServer", "my_var2", "été"];
+const STRS: &[&str] = &["hello wrold", "", "a \\\" b", "😀 ünï", "https://example.com", "%d items", "teh", "zq zq"];
+
+/// One segment of a loosely generated source file.
+fn segment(spec: &'static LangSpec) -> BoxedStrategy<String> {
+    let nline = spec.line.len();
+    let nblock = spec.block.len();
+    let ncode = spec.code.len();
+    let mut opts: Vec<(u32, BoxedStrategy<String>)> = vec![];
+    opts.push((
+        3,
+        (0..ncode, sel_str(IDENTS), sel_str(STRS), sel_str(&["", "  ", "\t", "    "]))
+            .prop_map(move |(i, id, s, ind)| {
+                format!("{ind}{}", spec.code[i].replace("{id}", &id).replace("{s}", &s))
+            })
+            .boxed(),
+    ));
+    if nline > 0 {
+        opts.push((
+            5,
+            (0..nline, text(), sel_str(&["", " ", "  ", "\t"]), sel_str(&["", " ", "  "]))
+                .prop_map(move |(i, t, ind, gap)| {
+                    t.lines()
+                        .map(|l| format!("{ind}{}{gap}{l}", spec.line[i]))
+                        .collect::<Vec<_>>()
+                        .join("\n")
+                })
+                .boxed(),
+        ));
+        // trailing comment after code
+        opts.push((
+            1,
+            (0..ncode, 0..nline, super::sentence())
+                .prop_map(move |(c, i, t)| {
+                    format!(
+                        "{} {} {}",
+                        spec.code[c].replace("{id}", "foo").replace("{s}", "x"),
+                        spec.line[i],
+                        t.replace('\n', " ")
+                    )
+                })
+                .boxed(),
+        ));
+    }
+    if nblock > 0 {
+        opts.push((
+            4,
+            (0..nblock, text(), any::<bool>(), any::<bool>())
+                .prop_map(move |(i, t, stars, close)| {
+                    let (o, c) = spec.block[i];
+                    let body = if stars {
+                        t.lines().map(|l| format!(" * {l}")).collect::<Vec<_>>().join("\n")
+                    } else {
+                        t
+                    };
+                    if close {
+                        format!("{o}\n{body}\n {c}")
+                    } else {
+                        format!("{o} {body}") // unterminated block comment
+                    }
+                })
+                .boxed(),
+        ));
+        // doc comment with tags (jsdoc / javadoc)
+        opts.push((
+            2,
+            (super::sentence(), sel_str(&["@param", "@return", "{@link Foo}", "{@link Foo", "{@link", "@see", "{@code x}", "{@", "<p>", "@"]), super::sentence())
+                .prop_map(move |(a, tag, b)| format!("/**\n * {a} {tag} {b}\n * {tag}\n */"))
+                .boxed(),
+        ));
+    }
+    opts.push((1, Just(String::new()).boxed()));
+    proptest::strategy::Union::new_weighted(opts).boxed()
+}
+
+/// A loosely structured source file in language `id` (not necessarily valid).
+pub fn source_file(id: &str) -> BoxedStrategy<String> {
+    let Some(spec) = lang_spec(id) else {
+        return text();
+    };
+    (
+        any::<bool>(),
+        proptest::collection::vec(segment(spec), 1..6),
+        sel_str(&["\n", "\n", "\n", "\r\n", "\n\n"]),
+        sel_str(&["", "\n"]),
+    )
+        .prop_map(move |(prologue, segs, nl, tail)| {
+            let mut s = String::new();
+            if prologue || !spec.prologue.is_empty() {
+                s.push_str(spec.prologue);
+            }
+            s.push_str(&segs.join(&nl));
+            s.push_str(&tail);
+            s
+        })
+        .boxed()
+}
